@@ -548,7 +548,7 @@ fn c26_blob_order_len3() {
 }
 
 stubs! {
-//@ props=C26 kind=bounded bound="payload length <= 2 bytes (unbounded length: Verus unit key_escape)"
+//@ props=C26 kind=bounded bound="payload length <= 2 bytes (unbounded length: Verus unit key_escape)" fallback=key_escape timeout=1800
 /// blob inverse for all byte strings of length <= 2: decode_key(enc(s)) == (Blob(s), len)
 #[kani::proof]
 #[kani::unwind(8)]
